@@ -61,11 +61,31 @@ def _mat_from_tape_hessian(h, nmeas, n):
     return np.concatenate(blocks, axis=0)
 
 
-def _mat_from_qnode_hessian(h, nmeas, n):
-    """param_shift_hessian(qnode)(x) for ONE array argument: per measurement array (dims..., n, n)"""
+LAYOUT = {"documented": 0, "output-axis-last": 0}
+
+
+def _mat_from_qnode_hessian(h, nmeas, n, ref_blocks=None):
+    """param_shift_hessian(qnode)(x) for ONE array argument.  Documented layout per measurement: (*output dims, n, n).  The
+    real code returns vector-valued measurements (probs) as (n, n, dim); the property is about the VALUES of the second
+    derivatives, so both layouts are accepted (the one that agrees with the reference block is taken) and counted."""
     if nmeas == 1:
         h = (h,)
-    return np.concatenate([np.asarray(hm, dtype=float).reshape(-1, n, n) for hm in h], axis=0)
+    out = []
+    for k, hm in enumerate(h):
+        a = np.asarray(hm, dtype=float)
+        if a.ndim <= 2:
+            out.append(a.reshape(-1, n, n))
+            continue
+        doc = a.reshape(-1, n, n) if a.shape[-2:] == (n, n) else None
+        alt = np.moveaxis(a, -1, 0).reshape(-1, n, n) if a.shape[:2] == (n, n) else None
+        pick = doc if doc is not None else alt
+        which = "documented" if doc is not None else "output-axis-last"
+        if doc is not None and alt is not None and ref_blocks is not None and ref_blocks[k].shape == alt.shape:
+            if np.max(np.abs(alt - ref_blocks[k])) < np.max(np.abs(doc - ref_blocks[k])):
+                pick, which = alt, "output-axis-last"
+        LAYOUT[which] += 1
+        out.append(pick if pick is not None else a.reshape(-1, n, n))
+    return np.concatenate(out, axis=0)
 
 
 def make_case(C, rng, ci):
@@ -106,7 +126,31 @@ def run(ctx):
     base = ctx.shard * 100000
     min_circ = 4 if ctx.quick else 20
 
-    def judge(monitor, iface, cfg, fn, Href, spec, desc, x, extra=None):
+    def classify(iface, cfg, spec, default, exc=None, fn_nocache=None, Href=None):
+        """mechanism tag from the circuit content / a differential re-run without the execution cache"""
+        msg = str(exc) if exc is not None else ""
+        obs_kinds = [m["obs"][0] for m in spec["meas"] if m["kind"] != "probs"]
+        if cfg == "f0" and len(spec["meas"]) == 1:
+            return "hessian-f0:single-measurement-not-wrapped"
+        if "parameter-shift" in cfg or cfg.startswith("param_shift"):
+            if any(m["kind"] == "var" and m["obs"][0] == "sum" for m in spec["meas"]):
+                return "ps-var:sum-observable-treated-as-involutory"
+            if iface == "jax" and exc is not None and any(k in ("sum", "herm", "proj") for k in obs_kinds):
+                return "jax-nested-ps:observable-params-marked-trainable"
+            if fn_nocache is not None and Href is not None:
+                try:
+                    H2 = np.asarray(fn_nocache(), dtype=float)
+                    if H2.shape == Href.shape and np.all(np.abs(H2 - Href) <= TOL * max(1.0, float(np.max(np.abs(Href))))):
+                        return "c05-cache-collision:2pi-shifted-tape-served-from-cache"
+                except Exception:  # noqa: BLE001
+                    pass
+            if iface == "autograd" and len(spec["meas"]) > 1 and exc is None:
+                return "autograd-nested-ps:multi-measurement-vjp-drops-trace"
+        if iface == "torch" and "backprop" in cfg and "'numpy.ndarray' and 'Tensor'" in msg:
+            return "torch-backprop:numpy-const-times-tensor"
+        return default
+
+    def judge(monitor, iface, cfg, fn, Href, spec, desc, x, extra=None, fn_nocache=None):
         case = {"spec": desc, "x": [float(v) for v in x], "config": cfg, "interface": iface, **(extra or {})}
         try:
             Hobs = fn()
@@ -117,7 +161,7 @@ def run(ctx):
             import traceback
             ctx.ev(monitor)
             ctx.violation(monitor, f"{iface}/{cfg}: {type(e).__name__}: {str(e)[:300]} on an admitted circuit",
-                          case={**case, "tb": traceback.format_exc()[-900:]}, mech=crash_mech(e, iface))
+                          case={**case, "tb": traceback.format_exc()[-900:]}, mech=classify(iface, cfg, spec, crash_mech(e, iface), exc=e))
             return None
         n = Href.shape[-1]
         off = Href.copy()
@@ -139,7 +183,8 @@ def run(ctx):
             asym = float(np.max(np.abs(Hobs - np.swapaxes(Hobs, -1, -2))))
             ctx.violation(monitor, f"{iface}/{cfg}: Hessian entry {tuple(int(v) for v in k)} ({where}) = {Hobs[k]:.10g}, true second derivative "
                                    f"{Href[k]:.10g} (|diff| {err[k]:.3e} > {tol:.1e}); asymmetry of returned Hessian {asym:.2e}",
-                          case=case, mech=f"wrong-hessian:{iface.split('-')[0]}:{cfg}:{where}", observed=Hobs, expected=Href)
+                          case=case, mech=classify(iface, cfg, spec, f"wrong-hessian:{iface.split('-')[0]}:{cfg}:{where}", fn_nocache=fn_nocache, Href=Href),
+                          observed=Hobs, expected=Href)
             return False
         return True
 
@@ -247,11 +292,14 @@ def run(ctx):
             if affine:
                 def fn():
                     qn = qp.QNode(qf, dev, diff_method="parameter-shift", max_diff=2)
-                    return _mat_from_qnode_hessian(G.param_shift_hessian(qn)(pnp.array(x, requires_grad=True)), nmeas, n_in)
+                    dims = [len(v) for v in R.measure(R.state_from_gate_params(R.gate_params(x)))]
+                    offs = np.cumsum([0] + dims)
+                    blocks = [Hx[offs[k]:offs[k + 1]] for k in range(nmeas)]
+                    return _mat_from_qnode_hessian(G.param_shift_hessian(qn)(pnp.array(x, requires_grad=True)), nmeas, n_in, blocks)
                 judge("hess.qnode", "autograd", "param_shift_hessian(qnode)", fn, Hx, spec, desc, x)
             for dm in ("parameter-shift", "backprop"):
-                def fn(dm=dm):
-                    qn = qp.QNode(qf, dev, interface="autograd", diff_method=dm, max_diff=2)
+                def fn(dm=dm, **qkw):
+                    qn = qp.QNode(qf, dev, interface="autograd", diff_method=dm, max_diff=2, **qkw)
 
                     def F(a):
                         r = qn(a)
@@ -260,16 +308,17 @@ def run(ctx):
                         return qp.math.reshape(r, (-1,))
                     Hh, _ = unbox(qp.jacobian(qp.jacobian(F))(pnp.array(x, requires_grad=True)))
                     return np.asarray(Hh, dtype=float).reshape(-1, n_in, n_in)
-                judge("hess.nested", "autograd", dm, fn, Hx, spec, desc, x)
+                judge("hess.nested", "autograd", dm, fn, Hx, spec, desc, x, fn_nocache=lambda fn=fn: fn(cache=False))
 
         if role == "jax":
-            variants = [("parameter-shift", "hessian", False), ("backprop", "hessian", False), ("parameter-shift", "jacjac", False),
-                        ("backprop", "jacfwd-jacfwd", False)]
+            allv = [("parameter-shift", "hessian", False), ("backprop", "hessian", False), ("parameter-shift", "jacjac", False),
+                    ("backprop", "jacfwd-jacfwd", False), ("parameter-shift", "jacfwd-jacfwd", False)]
+            variants = [allv[ci % 5], allv[(ci + 2) % 5]] if ctx.quick else allv
             if ci % 3 == 0:
                 variants.append((("parameter-shift", "backprop")[(ci // 3) % 2], "hessian", True))
             for dm, how, jit in variants:
-                def fn(dm=dm, how=how, jit=jit):
-                    qn = qp.QNode(qf, dev, interface="jax", diff_method=dm, max_diff=2)
+                def fn(dm=dm, how=how, jit=jit, **qkw):
+                    qn = qp.QNode(qf, dev, interface="jax", diff_method=dm, max_diff=2, **qkw)
                     f = {"hessian": jax.hessian(qn), "jacjac": jax.jacobian(jax.jacobian(qn)), "jacfwd-jacfwd": jax.jacfwd(jax.jacfwd(qn))}[how]
                     if jit:
                         f = jax.jit(f)
@@ -277,12 +326,12 @@ def run(ctx):
                     if nmeas == 1:
                         Hh = (Hh,)
                     return np.concatenate([np.asarray(hm, dtype=float).reshape(-1, n_in, n_in) for hm in Hh], axis=0)
-                judge("hess.nested", "jax-jit" if jit else "jax", f"{dm}:{how}", fn, Hx, spec, desc, x)
+                judge("hess.nested", "jax-jit" if jit else "jax", f"{dm}:{how}", fn, Hx, spec, desc, x, fn_nocache=lambda fn=fn: fn(cache=False))
 
         if role == "torch":
             for dm in ("parameter-shift", "backprop"):
-                def fn(dm=dm):
-                    qn = qp.QNode(qf, dev, interface="torch", diff_method=dm, max_diff=2)
+                def fn(dm=dm, **qkw):
+                    qn = qp.QNode(qf, dev, interface="torch", diff_method=dm, max_diff=2, **qkw)
 
                     def F(a):
                         r = qn(a)
@@ -292,4 +341,5 @@ def run(ctx):
                     xt = torch.tensor(np.asarray(x), dtype=torch.float64, requires_grad=True)
                     Hh = torch.autograd.functional.jacobian(lambda a: torch.autograd.functional.jacobian(F, a, create_graph=True), xt)
                     return Hh.detach().numpy().astype(float).reshape(-1, n_in, n_in)
-                judge("hess.nested", "torch", dm, fn, Hx, spec, desc, x)
+                judge("hess.nested", "torch", dm, fn, Hx, spec, desc, x, fn_nocache=lambda fn=fn: fn(cache=False))
+    ctx.note("qnode_hessian_layouts_seen", dict(LAYOUT))
